@@ -146,7 +146,7 @@ pub fn panic_site(msg: &str) -> String {
 }
 
 pub fn stage_response(case: &Case) -> String {
-    let r = std::panic::catch_unwind(|| grex::verif_hooks::stage_dump(&case.tcs, case.cfg.bits, case.cfg.min_rep, case.cfg.min_len));
+    let r = quietly(|| grex::verif_hooks::stage_dump(&case.tcs, case.cfg.bits, case.cfg.min_rep, case.cfg.min_len));
     match r {
         Ok(d) => format!(
             "S\t{}\t{}\t{}\t{}\t{}\t{}\t{}",
